@@ -741,7 +741,7 @@ func genC13(c *hlib.Ctx) {
 			}
 			b := a
 			b.ms = append([]c13Matcher(nil), a.ms...)
-			switch r.Intn(8) {
+			switch r.Intn(9) {
 			case 0: // split one matcher's value at a ';' into two matchers' worth of text
 				if len(b.ms) > 0 {
 					m := b.ms[0]
@@ -770,6 +770,18 @@ func genC13(c *hlib.Ctx) {
 				b.ms = append(b.ms, c13MatcherGen(r))
 			case 6:
 				b.block = c13Block(r, blocks)
+			case 7: // one value spells out, in plain characters, the escape sequence of the other's special character
+				if len(b.ms) > 0 {
+					special := c13Str(r, 1) + r.Pick([]string{"\n", "\t", "\x01", "\"", "\\", "\r", "\x7f", "é\n"}) + c13Str(r, 1)
+					a.ms = append([]c13Matcher(nil), a.ms...)
+					a.ms[0].v = special
+					q := strconv.Quote(special)
+					b.ms[0].v = q[1 : len(q)-1]
+					if r.Bool() { // with a legacy name, so that nothing else needs quoting
+						a.ms[0].n, b.ms[0].n = "job", "job"
+					}
+					c.Count("expanded-pair:spelled-out-escape")
+				}
 			}
 			doPair(c, a, b)
 			if r.Chance(1, 3) {
